@@ -12,11 +12,11 @@ DefaultCfg == [o \in BoolOptions |-> Default(o)] @@ [patterns |-> FALSE, pragma 
 Cfgs == {[o \in BoolOptions |-> f[o]] @@ [patterns |-> p, pragma |-> g] : f \in [BoolOptions -> BOOLEAN], p \in BOOLEAN, g \in BOOLEAN}
 
 (* JSON texts *)
-PatternJson(c) == IF c.patterns THEN <<"^i-">> ELSE <<>>
+PatternJson(c) == IF c.patterns THEN <<"(?i)^ion-", "^widget$", "^i-">> ELSE <<>>
 Explicit(c) == [o \in BoolOptions |-> c[o]] @@ [customElementPatterns |-> PatternJson(c)] @@ (IF c.pragma THEN [pragma |-> "hh"] ELSE <<>>)
 Minimal(c) ==
   LET keys == {o \in BoolOptions : c[o] # Default(o)} IN
-  [o \in keys |-> c[o]] @@ (IF c.patterns THEN [customElementPatterns |-> <<"^i-">>] ELSE <<>>) @@ (IF c.pragma THEN [pragma |-> "hh"] ELSE <<>>)
+  [o \in keys |-> c[o]] @@ (IF c.patterns THEN [customElementPatterns |-> PatternJson(c)] ELSE <<>>) @@ (IF c.pragma THEN [pragma |-> "hh"] ELSE <<>>)
 JsonText(r) == IF DOMAIN r = {} THEN "{}" ELSE ToJson(r)
 
 (* the feature each option governs; an option not listed here (optimize, pragma) concerns every JSX element *)
